@@ -3,10 +3,12 @@ package main
 import (
 	"context"
 	"fmt"
+	"github.com/smallnest/rpcx/protocol"
 	"runtime"
 	"sort"
 	"strings"
 	"sync"
+	"sync/atomic"
 
 	jump "github.com/dgryski/go-jump"
 	"github.com/smallnest/rpcx/client"
@@ -187,7 +189,105 @@ func c13Concurrent(o *common.Out, id string, n, g, iters int) {
 	o.Count("concurrent-clients")
 }
 
+// an argument that is sent to the server and whose rendering (the routing key) yields the processor
+type c13KeyArg struct{ K string }
+
+func (a c13KeyArg) String() string {
+	runtime.Gosched()
+	return a.K
+}
+
+var c13xSeq int64
+
+// c13XClient: ONE discovery client with consistent-hash selection, n servers, g goroutines calling concurrently with
+// different arguments: every call is served by the server its own arguments map to when nothing else is going on.
+// case: xconc|n|g|iters
+func c13XClient(o *common.Out, id string, n, g, iters int) {
+	abstract := fmt.Sprintf("xconc|%d|%d|%d", n, g, iters)
+	o.Begin(id, abstract)
+	uid := atomic.AddInt64(&c13xSeq, 1)
+	var pairs []*client.KVPair
+	var addrs []string
+	for i := 0; i < n; i++ {
+		addr := fmt.Sprintf("c13x-%d-s%d", uid, i)
+		registerFake(addr, &fakeServer{id: i, fixed: fmt.Sprintf("ok%d", i+1)}) // the reply names the server
+		addrs = append(addrs, addr)
+		pairs = append(pairs, &client.KVPair{Key: "vsrv@" + addr})
+	}
+	defer func() {
+		for _, a := range addrs {
+			unregisterFake(a)
+		}
+	}()
+	d, _ := client.NewMultipleServersDiscovery(pairs)
+	opt := client.DefaultOption
+	opt.SerializeType = protocol.JSON
+	opt.Heartbeat = false
+	xc := client.NewXClient("Svc", client.Failfast, client.ConsistentHash, d, opt)
+	defer xc.Close()
+	const nk = 12
+	key := func(gi, k int) string { return fmt.Sprintf("key-%d-%d", gi, k) }
+	want := map[string]int{}
+	for gi := 0; gi < g; gi++ {
+		for k := 0; k < nk; k++ {
+			var rep int
+			if err := xc.Call(context.Background(), "M", c13KeyArg{key(gi, k)}, &rep); err != nil {
+				o.Fail(id, "rig", "sequential call failed: "+err.Error(), abstract)
+				return
+			}
+			want[key(gi, k)] = rep
+		}
+	}
+	var mu sync.Mutex
+	bad := ""
+	var wg sync.WaitGroup
+	for gi := 0; gi < g; gi++ {
+		wg.Add(1)
+		go func(gi int) {
+			defer wg.Done()
+			for it := 0; it < iters; it++ {
+				for k := 0; k < nk; k++ {
+					var rep int
+					err := xc.Call(context.Background(), "M", c13KeyArg{key(gi, k)}, &rep)
+					if err != nil || rep != want[key(gi, k)] {
+						mu.Lock()
+						if bad == "" {
+							bad = fmt.Sprintf("with %d goroutines calling through one client, the call with arguments %q was served by server %d (err=%v); alone it is served by server %d (server set unchanged)", g, key(gi, k), rep-1, err, want[key(gi, k)]-1)
+						}
+						mu.Unlock()
+						return
+					}
+				}
+			}
+		}(gi)
+	}
+	wg.Wait()
+	if bad != "" {
+		o.Fail(id, "unstable", bad, abstract)
+	}
+	o.ImplOnly(id, abstract, true)
+	o.Count("concurrent-calls-one-client")
+}
+
 func runC13(r *common.Rand, tier string, o *common.Out, replay string) {
+	if strings.HasPrefix(replay, "xconc|") {
+		var n, g, iters int
+		p := strings.Split(replay, "|")
+		fmt.Sscan(p[1], &n)
+		fmt.Sscan(p[2], &g)
+		fmt.Sscan(p[3], &iters)
+		c13XClient(o, "replay", n, g, iters)
+		return
+	}
+	if replay == "" {
+		xi := 6
+		if tier == "thorough" {
+			xi = 80
+		}
+		for _, g := range []int{2, 4, 8} {
+			c13XClient(o, fmt.Sprintf("xconc%d", g), 4+g/2, g, xi)
+		}
+	}
 	if strings.HasPrefix(replay, "conc|") {
 		var n, g, iters int
 		p := strings.Split(replay, "|")
